@@ -140,6 +140,8 @@ type Exec struct {
 	probing   bool
 	pruner    *Pruner
 	probes    []Probe
+	ghostNames []string
+	bounded   int // >0: bounded concretisation mode (loop unroll bound)
 	pureCalls map[string]bool
 	usedContracts map[string]bool
 	stats     struct{ instrs, forks, calls int }
@@ -152,10 +154,19 @@ func newExec(prog *Program, db *ContractDB, unit string) *Exec {
 		unmod: map[string]bool{}, assumed: map[string]bool{}, inlined: map[string]bool{},
 		heapSorts: map[string]string{}, globals: map[*ssa.Global]*Cell{}, maxPaths: 4000,
 		oblSeen: map[string]int{}, safety: true, strLens: map[string]int{}, pureCalls: map[string]bool{}, usedContracts: map[string]bool{}}
-	for k, v := range db.Opaque {
-		x.tc.opaque[k] = v
-	}
 	return x
+}
+
+// useOpaque applies the opaque-type declarations of the unit's own package
+// (and of the assumed files) — opacity is a per-unit modelling choice.
+func (x *Exec) useOpaque(pkgPath string) {
+	for _, pc := range x.db.Pkgs {
+		if pc.Pkg == pkgPath || pc.Pkg == "" {
+			for k, v := range pc.Opaque {
+				x.tc.opaque[k] = v
+			}
+		}
+	}
 }
 
 func (x *Exec) note(format string, args ...interface{}) {
@@ -303,6 +314,9 @@ func (x *Exec) assumeWF(st *State, v Value) {
 		st.assume(mkAnd(mkCmp("<=", "0", v.Rid), mkCmp("<", v.Rid, st.alloc), mkCmp("<=", "0", v.Off),
 			mkCmp("<=", "0", v.Len), mkCmp("<=", v.Len, v.Cap), mkCmp("<=", mkAdd(v.Off, v.Cap), maxSliceLen),
 			mkImp(mkEq(v.Rid, "0"), mkEq(v.Cap, "0"))))
+		if x.bounded > 0 {
+			st.assume(mkCmp("<=", v.Len, "64")) // failing-input search: replayable sizes only
+		}
 	case KRef, KMap, KIface, KChan:
 		if _, ok := isIntLit(v.S); ok || v.S == "" {
 			return
